@@ -1873,6 +1873,29 @@ def m_t(t, it, ctx, a, k):
     return t if len(t.dims) < 2 else transpose(ctx, t, 0, 1)
 
 
+def m_index_select(t, it, ctx, a, k):
+    """x.index_select(dim, index): index is a 1-d integer tensor"""
+    dim = a[0] if a else k["dim"]
+    index = a[1] if len(a) > 1 else k["index"]
+    t = t.frozen()
+    index = as_tensor(index).frozen()
+    if len(index.dims) != 1:
+        raise PyRaise(VExc("IndexError", "index_select(): Index is supposed to be a vector"))
+    p = norm_dim(ctx, t, dim)
+    if len(t.dims[p].atoms) != 1:
+        t = flatten_dim(t, p)
+    off = sum(len(d.atoms) for d in t.dims[:p])
+    n = t.dims[p].size
+
+    def elem(idx):
+        j = index.elem([idx[off]])
+        ctx.assume(z3.And(j >= 0, j < n), "index_select: indices are in range (torch raises otherwise)")
+        return t.elem(idx[:off] + [j] + idx[off + 1:])
+
+    return VTensor(t.dims[:p] + [index.dims[0]] + t.dims[p + 1:], elem, t.sort)
+
+
+METHODS["index_select"] = m_index_select
 METHODS["t"] = m_t
 METHODS["tril"] = _m_tri(True)
 METHODS["triu"] = _m_tri(False)
